@@ -368,10 +368,10 @@ func scenarios() []*sess.Scenario {
 
 func migrate(run *vr.Run) {
 	D := 2
-	budget := 100 * time.Second
+	budget := 5 * time.Minute
 	if run.Thorough() {
 		D = 3
-		budget = 10 * time.Minute
+		budget = 45 * time.Minute
 	}
 	run.Set("delay_bound", D)
 	single := map[string]bool{}
